@@ -5,7 +5,7 @@ import re
 from .core import RuleResult, DISCHARGED, VIOLATED, UNMODELLED
 from .flow import Flow
 from .guards import GuardCtx, as_comparison
-from .ir import atoms_of
+from .ir import atoms_of, _single_def
 from .rules_arith import _is_constant, _is_int
 from .rules_state import fkey
 
@@ -319,11 +319,30 @@ def rule_V1(prog, fixture=False):
 PROCESS_NAMES = {"process", "operator()"}
 
 
-def _write_sources(f, flow, field):
+def _write_sources(f, flow, field, depth=0):
     """[(node, atoms the written value may depend on)] for every write of this->field in f"""
     from .rules_order import _is_assign
     out = []
     for n in f.walk():
+        # a member function called on *this that writes the member (the hand-over hoisted into _save_history(x, nx))
+        if n.k == "CXXMemberCallExpr" and n.callee and n.callee.get("cls") == f.cls and depth < 2 and flow.program is not None:
+            obj = n.call_object()
+            g = flow.program.functions.get(n.callee.get("usr"))
+            if (obj is None or obj.strip_all().k == "CXXThisExpr") and g is not None and g.usr != f.usr and not g.get("const"):
+                gws = _write_sources(g, Flow(g, flow.program), field, depth + 1)
+                if gws:
+                    args = n.call_args()
+                    deps = set()
+                    for (_, gd) in gws:
+                        for a in gd:
+                            if a[0] == "parm":
+                                idx = [i for i, prm in enumerate(g.params) if prm["n"] == a[1]]
+                                if idx and idx[0] < len(args):
+                                    deps |= flow.deps(args[idx[0]])
+                            else:
+                                deps.add(a)
+                    out.append((n, deps))
+                    continue
         lhs = _is_assign(n)
         if lhs is not None:
             if any(r == ("this", field) for r in flow.root(lhs)):
@@ -507,7 +526,7 @@ def rule_H1(prog, fixture=False):
             key = "H1:%s:output" % fkey(f)
             dep_in = any(a[0] == "parm" and a[1] in in_names and a[2] == "content" for a in deps)
             state_fields = [fld for (fld, _) in written] + [sname for sname in scalars if _write_sources(f, flow, sname)]
-            dep_state = [fld for fld in state_fields if any(a[0] == "this" and a[1] == fld for a in deps)]
+            dep_state = [fld for fld in state_fields if any(a[0] == "this" and a[1] in (fld, "*") for a in deps)]
             if dep_in and dep_state:
                 res.add(key, DISCHARGED, "%s:%d" % (rel, rets[0].line), "%s output" % f.short,
                         "depends on the input frame and on the carried state %s" % ", ".join(dep_state), func=f.name, extra={"props": h1_props})
@@ -623,6 +642,10 @@ def _pred_granularity(ctx, c, pol):
         op = {"==": "!=", "!=": "=="}.get(op, op)
     for a, b in ((l, r), (r, l)):
         a0, b0 = a.strip_all(), b.strip_all()
+        if a0.k == "DeclRefExpr" and a0.decl and a0.decl.get("k") == "local":
+            d = _single_def(a0)           # const int rem = len % decim; if (rem != 0) throw
+            if d is not None:
+                a0 = d.strip_all()
         if a0.k == "BinaryOperator" and a0.op == "%" and len(a0.c) == 2 and b0.k == "IntegerLiteral" and b0.get("v") == "0" and op == "==":
             oa = ctx.objs(a0.c[0], ("size", "val"))
             ob = ctx.objs(a0.c[1], ("size", "val"))
